@@ -298,6 +298,8 @@ def run_scenario(sc, strategy, line_level=False, max_steps=6000):
             if gid is not None and gid in sc.get('ignore', ()):
                 continue
             s.yield_('peer.answer')
+            if gid is not None and gid in sc.get('late', {}):
+                s.sleep(sc['late'][gid])       # the node answers this request late (after the caller's time-out)
             if not peer.open:
                 if sc.get('reopen') is not None:
                     continue
